@@ -59,6 +59,8 @@ def veq(sv, rv):
     if rv is None:
         return False
     t = sv.get("t")
+    if t == "deep" or rv.get("t") == "deep":
+        return True        # below the nesting bound of the spec's Deref (fuel 6) / of the harness snapshot (12): not compared
     if t == "num":
         return rv.get("t") == "num" and rv.get("s") == str(sv["v"])
     if t == "str":
